@@ -380,7 +380,10 @@ func (e *SpecEnv) sel(x Val, name string) Val {
 		if fxx == nil {
 			fxx = &fnExec{ex: e.ex}
 		}
-		return fxx.load(e.st, mp)
+		lv := fxx.load(e.st, mp)
+		// values read from memory are well-typed (slice headers sane, lengths non-negative)
+		e.ex.assumeAll(e.st, typeInv(lv, 0))
+		return lv
 	case *types.Struct:
 		path := embeddedPath(x.T, name, 0)
 		if path == nil {
